@@ -389,10 +389,17 @@ Step(s, e) ==
                  usable == IsFat32(s.raw) /\ s.raw.fi.ok /\ s.raw.fi.free >= 0 /\ s.raw.fi.free <= s.raw.g.n /\ ~DirtyBit(s.raw.st)
                  v05 == IF e.op = "mount" /\ Get(s, "fiBase", FALSE) /\ usable THEN Tag("C05.clean_stale", s.raw.fi.free = FreeCount(s.D.F)) ELSE {}
                  fiBase == IF e.op = "mount" THEN (~usable \/ s.raw.fi.free = FreeCount(s.D.F)) ELSE Get(s, "fiBase", FALSE)
+                 \* C13 needs no model: a session of non-mutating calls writes nothing (statistics without a usable count may store it)
+                 ro == IF e.op = "mount" THEN TRUE ELSE Get(s, "ro", FALSE) /\ e.op \in ReadOnlyOps
+                 fiWp == IF e.op = "mount" THEN FALSE ELSE Get(s, "fiW", FALSE) \/ (e.op = "stats" /\ IsFat32(s.raw) /\ ~Get(s, "fiUsable", FALSE))
+                 fiUp == IF e.op = "mount" THEN usable ELSE Get(s, "fiUsable", FALSE) \/ (e.op = "stats" /\ e.r.k = "ok")
+                 v13 == IF ro /\ ~Get(s, "atime", FALSE) /\ Has(e, "nw")
+                        THEN Tag("C13.no_write", e.nw = 0 \/ (fiWp /\ \A i \in 1..Len(e.w) : e.w[i].r = "fsinfo")) ELSE {}
                  \* the table never links a used cluster to a free one, also when calls before failed half-way (Fat!LinksToUsed)
                  vlf == IF Has(e, "raw") THEN Tag("C03.link_free", LinksToUsed(Dp.F)) ELSE {}
-             IN [s |-> [s EXCEPT !.pm = pmS, !.raw = post, !.D = Dp, !.changed = changed, !.mountSt = mountSt, !.fiBase = fiBase],
-                 v |-> v3 \cup v12 \cup v05 \cup vlf, dev |-> {}, note |-> {"PM"}]
+             IN [s |-> [s EXCEPT !.pm = pmS, !.raw = post, !.D = Dp, !.changed = changed, !.mountSt = mountSt, !.fiBase = fiBase,
+                                 !.ro = ro, !.fiW = fiWp, !.fiUsable = fiUp],
+                 v |-> v3 \cup v12 \cup v05 \cup vlf \cup v13, dev |-> {}, note |-> {"PM"}]
    ELSE IF e.op = "end" \/ (s.dead /\ (e.op # "crash" \/ ~Has(s, "dur"))) THEN [s |-> s, v |-> {}, dev |-> {}, note |-> {}]
    ELSE IF e.op = "crash" THEN
         \* C14: the image a power cut leaves after the first e.p entries of the device write log
@@ -415,13 +422,18 @@ Step(s, e) ==
            \/ (Has(e.a, "to") /\ e.a.to # "" /\ e.a.to \notin DOMAIN s.m.dh)
         THEN [s |-> s, v |-> {}, dev |-> {}, note |-> {}]
         ELSE [s |-> [s EXCEPT !.dead = TRUE], v |-> {}, dev |-> {}, note |-> {"SKIP"}]
-   ELSE IF Has(e, "flt") /\ e.flt.drop = FALSE /\ ~(e.op = "flush" /\ (e.r.k = "ok" \/ (e.r.k = "err" /\ e.r.e = "Io"))) THEN
+   \* (a transient "interrupted" error that the looping callers - write_all, read_exact, the std::io adapter - repeated, after which the call
+   \*  succeeded, is no fault at all for the caller: the event is judged like any other)
+   ELSE IF Has(e, "flt") /\ e.flt.drop = FALSE /\ ~(e.op = "flush" /\ (e.r.k = "ok" \/ (e.r.k = "err" /\ e.r.e = "Io")))
+           /\ ~(Get(e.flt, "intr", FALSE) /\ e.r.k = "ok" /\ e.op \in {"write_all", "read_all", "create_file", "create_dir", "remove", "rename", "truncate", "close"}) THEN
         \* an injected storage fault (C09 judges those traces): only an explicit flush has a defined continuation here: if it fails
         \* nothing is promised, and if the library reports success in spite of the fault its promise (C14) stands
         \* (the status-byte rules of C12 need no model: they stay in force, see the PM step)
         \* (a call that reports success although a device call failed has swallowed the error - C09's business - and claims to have done
         \*  its work: the model-free structural clauses stay in force for the images that follow)
-        [s |-> [s EXCEPT !.dead = TRUE, !.pm12 = TRUE, !.pm = (e.r.k = "ok"), !.raw = IF Has(e, "raw") /\ e.raw.ok THEN e.raw ELSE s.raw,
+        \* (the calls that follow are no longer modelled - renames and removals among them -, so the durability promises made so far
+        \*  cannot be followed any further: they end here)
+        [s |-> [s EXCEPT !.dead = TRUE, !.pm12 = TRUE, !.pm = (e.r.k = "ok"), !.dur = {}, !.raw = IF Has(e, "raw") /\ e.raw.ok THEN e.raw ELSE s.raw,
                          !.D = IF Has(e, "raw") /\ e.raw.ok THEN Derive(e.raw, s.oem) ELSE s.D],
          v |-> IF Has(e, "raw") /\ e.raw.ok THEN Tag("C03.link_free", LinksToUsed(Derive(e.raw, s.oem).F)) ELSE {}, dev |-> {}, note |-> {"FAULT"}]
    ELSE IF e.r.k \in {"panic", "hang"} THEN
